@@ -24,7 +24,7 @@ def ints(a):
 def compose_event(darsia, rng, tid, stages):
     """Run AdaptiveBalance.find_balance with the stage fits replaced by assignment of TLC's integer balances."""
     import darsia.corrections.color.colorbalance as cb
-    queue = [dict(s) for s in stages]
+    queue = [dict(s) for s in stages if s["mode"] != "reset"]
 
     class Stub:
         def __init__(self):
@@ -43,7 +43,10 @@ def compose_event(darsia, rng, tid, stages):
         cb.WhiteBalance = cb.ColorBalance = cb.AffineBalance = Stub
         ab = darsia.AdaptiveBalance()
         for s in stages:
-            ab.find_balance(x, x, mode=s["mode"])
+            if s["mode"] == "reset":
+                ab.reset()
+            else:
+                ab.find_balance(x, x, mode=s["mode"])
         e["res"] = ints(ab.apply_balance(x))
         if rng.random() < 0.5:   # also the (4, 6, 3) swatch layout
             x3 = np.tile(x[:4, None, :], (1, 6, 1))
@@ -158,11 +161,14 @@ def run(ck, replay=None):
     reg = ck.tlc("MC_ColorBalance", "MC_ColorBalance_asbuilt.cfg", workers=1, expect_ok=False, label="regression-model")
     if "AccumulatedIsSequential" not in reg.violated:
         raise MachineryError("ColorBalance model no longer rejects the column-vector accumulation (vacuity guard)")
+    reg2 = ck.tlc("MC_ColorBalance", "MC_ColorBalance_resetkeepsb.cfg", workers=1, expect_ok=False, label="reset-keeps-translation")
+    if "AccumulatedIsSequential" not in reg2.violated:
+        raise MachineryError("ColorBalance model no longer rejects a reset() that keeps the translation (vacuity guard)")
     darsia = import_darsia()
     rng = random.Random(ck.seed)
     quick = ck.tier == "quick"
     events = []
-    sel = stage_lists if not quick else [s for s in stage_lists if len(s) <= 2] + rng.sample([s for s in stage_lists if len(s) == 3], 40)
+    sel = stage_lists if not quick else [s for s in stage_lists if len(s) <= 2] + rng.sample([s for s in stage_lists if len(s) == 3], 40) + [s for s in stage_lists if len(s) == 3 and s[1]["mode"] == "reset"]
     for i, st in enumerate(sel):
         events.append(compose_event(darsia, rng, f"compose:{i}", st))
     for i in range(15 if quick else 90):
